@@ -230,8 +230,12 @@ def fam_list(ctx, rng):
             kopts = expected_kept(pd, policy)
             if c2 is None:
                 nq = [0.5 / max(pd[i] for i in ko) for ko in kopts]
-                ctx.check(not all(fmax < x * (1 - 1e-9) for x in nq), "permutation-consistent",
-                          f"permuted / sub-list call raised {r2!r}", order=list(p), **info)
+                legit = not all(fmax < x * (1 - 1e-9) for x in nq)
+                if not legit:
+                    # a curve-level refusal (NaN / negative curve, e.g. Savitzky-Golay at the spectrum's end) is
+                    # consistent iff the single run of some recording of an admissible kept set is refused as well
+                    legit = any(single(p[i]) is None for ko in kopts for i in ko)
+                ctx.check(legit, "permutation-consistent", f"permuted / sub-list call raised {r2!r}", order=list(p), **info)
                 continue
             okp = False
             for ko in kopts:
